@@ -65,6 +65,18 @@ fn adversarial_lark() -> BoxedStrategy<String> {
         (big.clone(), big.clone()).prop_map(|(a, b)| format!("start: /(a{{{}}}){{{}}}/\n", a, b)),
         (big.clone(), big.clone()).prop_map(|(a, b)| format!("start: \"a\"~{} .. {}\n", a, b)),
         big.clone().prop_map(|a| format!("start: <[{}]> | <[0-{}]> | <[^{}]>\n", a, a, a)),
+        // token ids at the edge of the vocabulary (the check's vocabularies have 257 and 289 tokens)
+        (prop_oneof![Just(255u32), Just(256), Just(257), Just(258), Just(287), Just(288), Just(289), Just(290)], 0u32..4, 0u8..6).prop_map(|(n, w, shape)| {
+            let lo = n.saturating_sub(w);
+            match shape {
+                0 => format!("start: <[{}]>\n", n),
+                1 => format!("start: <[{}-{}]>\n", lo, n),
+                2 => format!("start: \"a\" <[{}-{}]> \"b\"\n", lo, n),
+                3 => format!("start: <[^{}-{}]>\n", lo, n),
+                4 => format!("start: (\"a\" | <[{}]>)*\n", n),
+                _ => format!("start: <[0-3,{}-{}]> <[^0-{}]>\n", lo, n, lo),
+            }
+        }),
         big.clone().prop_map(|a| format!("start: p::{}\np::_: \"a\" p::incr([0:{}]) %if lt([0:64], {}) | \"\"\n", a, a, a)),
         big.clone().prop_map(|a| format!("start: p::0\np::_: \"a\" p::set_bit({}) %if bit_clear({}) | \"\"\n", a, a)),
         big.clone().prop_map(|a| format!("start: x\nx[max_tokens={}]: /a*/\n", a)),
@@ -195,7 +207,7 @@ fn mutate_text(s: String, muts: Vec<(u16, u8, u8)>) -> String {
 
 fn input_strategy() -> BoxedStrategy<Input> {
     let muts = proptest::collection::vec((any::<u16>(), any::<u8>(), any::<u8>()), 0..4);
-    let valid = crate::gen::any_grammar();
+    let valid = crate::gen::any_grammar_ext();
     let all_corpus = corpus::all();
     let corp = (0..all_corpus.len()).prop_map(move |i| all_corpus[i].clone());
     let from_spec = |g: GrammarSpec| match g {
@@ -208,6 +220,7 @@ fn input_strategy() -> BoxedStrategy<Input> {
         3 => adversarial_schema().prop_map(Input::Json),
         1 => adversarial_regex().prop_map(Input::Regex),
         2 => valid.clone().prop_map(from_spec),
+        1 => crate::gen::gen_like_grammar(false).prop_map(from_spec),
         4 => (prop_oneof![valid, corp], muts.clone()).prop_map(move |(g, m)| match g {
             GrammarSpec::Lark(s) => Input::Lark(mutate_text(s, m)),
             GrammarSpec::Regex(s) => Input::Regex(mutate_text(s, m)),
@@ -663,7 +676,14 @@ pub fn main_c20(mode: &str, file: Option<&str>) -> i32 {
                 samples.push(json!({"case": c, "transcript": tr}));
             }
         }
-        if let Err((key, msg)) = judge(&chk[i], &usr[i]) {
+        if let Err((mut key, msg)) = judge(&chk[i], &usr[i]) {
+            // known findings: the two internal panics of hidden stop= lexemes (see C11) - only for
+            // Lark inputs that contain such a lexeme
+            if key == "C20/legal-call-failed-with-internal-panic" && matches!(&c.input, Input::Lark(s) if s.contains("stop=")) {
+                if let Some(k) = crate::engine::hidden_stop_panic(&msg) {
+                    key = format!("C20/{}", k);
+                }
+            }
             if kn.contains(&key) {
                 let e = known_hits.entry(key).or_insert((0, truncate_str(&msg, 300)));
                 e.0 += 1;
